@@ -521,6 +521,182 @@ impl Check {
         ]));
     }
 
+    /// Thorough tier only: a coverage-guided libFuzzer campaign (cargo-fuzz crate in <root>/fuzz)
+    /// with the same oracle inside the target. Fixed work (-runs), fresh corpus from `seeds`,
+    /// `-seed` derived from VERIF_SEED. Crash artefacts are re-run through the deterministic CLI
+    /// in a child process (`--replay`), and only what that child reports counts as a violation;
+    /// the final corpus is replayed in-process through `case` so that it is counted as evidence.
+    /// Anything that keeps the stage from running (no nightly toolchain, build failure) is
+    /// recorded in the evidence and does not change the verdict of the generated campaigns.
+    pub fn fuzz_stage<F>(&mut self, target: &str, campaign: &str, runs: u64, max_len: usize, seeds: &[Vec<u8>], case: F)
+    where
+        F: Fn(&mut Choices, &mut CaseLog) -> CaseResult + Sync,
+    {
+        if !self.thorough() || self.replay_only.is_some() || self.is_child {
+            return;
+        }
+        let t0 = Instant::now();
+        let note = |this: &mut Check, status: &str, fields: Vec<(&str, Js)>| {
+            let mut v = vec![("target", Js::str(target)), ("status", Js::str(status)), ("runs_requested", Js::int(runs as i128)), ("wall_s", Js::Num(format!("{:.1}", t0.elapsed().as_secs_f64())))];
+            v.extend(fields);
+            this.extra.push((format!("libfuzzer:{target}"), Js::obj(v)));
+        };
+        let fuzz_dir = verif_root().join("fuzz");
+        if !fuzz_dir.join("Cargo.toml").exists() {
+            note(self, "not run: no fuzz crate", vec![]);
+            return;
+        }
+        let work = out_root().join("fuzz-work").join(format!("{}-{}", self.property, target));
+        let _ = std::fs::remove_dir_all(&work);
+        let corpus = work.join("corpus");
+        let artifacts = work.join("artifacts");
+        if std::fs::create_dir_all(&corpus).is_err() || std::fs::create_dir_all(&artifacts).is_err() {
+            note(self, "not run: cannot create the work directory", vec![]);
+            return;
+        }
+        for (i, s) in seeds.iter().enumerate() {
+            let _ = std::fs::write(corpus.join(format!("seed-{i:04}")), s);
+        }
+        let lock = fuzz_dir.join("Cargo.lock");
+        if !lock.exists() {
+            let _ = std::fs::copy(verif_root().join("harness").join("Cargo.lock"), &lock);
+        }
+        let out = std::process::Command::new("cargo")
+            .args(["+nightly", "fuzz", "run", target])
+            .arg(&corpus)
+            .arg("--")
+            .arg(format!("-runs={runs}"))
+            .arg(format!("-seed={}", self.seed.wrapping_add(1).max(1)))
+            .arg("-len_control=0")
+            .arg(format!("-max_len={max_len}"))
+            .arg(format!("-artifact_prefix={}/", artifacts.display()))
+            .arg("-print_final_stats=1")
+            .arg("-timeout=120")
+            .arg("-rss_limit_mb=6144")
+            .current_dir(&fuzz_dir)
+            .env("CARGO_NET_OFFLINE", "true")
+            .env("VERIF_ROOT", verif_root())
+            .stdin(std::process::Stdio::null())
+            .output();
+        let out = match out {
+            Ok(o) => o,
+            Err(e) => {
+                note(self, &format!("not run: cargo fuzz could not be started: {e}"), vec![]);
+                return;
+            }
+        };
+        let stderr = String::from_utf8_lossy(&out.stderr).to_string();
+        let stat = |name: &str| -> Option<i128> { stderr.lines().find_map(|l| l.trim().strip_prefix(name).and_then(|r| r.trim().parse::<i128>().ok())) };
+        let executed = stat("stat::number_of_executed_units:");
+        if executed.is_none() && !stderr.contains("VERIF-FUZZ-FAIL") && !stderr.contains("ERROR: libFuzzer") && !stderr.contains("ERROR: AddressSanitizer") {
+            let tail: String = stderr.lines().rev().take(12).collect::<Vec<_>>().into_iter().rev().collect::<Vec<_>>().join(" | ");
+            note(self, "not run: build or start-up failure", vec![("stderr_tail", Js::Str(tail))]);
+            return;
+        }
+        let cov = stderr.lines().rev().find_map(|l| {
+            let mut it = l.split_whitespace();
+            while let Some(w) = it.next() {
+                if w == "cov:" {
+                    return it.next().and_then(|x| x.parse::<i128>().ok());
+                }
+            }
+            None
+        });
+        // artefacts
+        let mut crashes = vec![];
+        let mut others = vec![];
+        if let Ok(rd) = std::fs::read_dir(&artifacts) {
+            for e in rd.filter_map(|e| e.ok()) {
+                let name = e.file_name().to_string_lossy().to_string();
+                if name.starts_with("crash-") {
+                    crashes.push(e.path());
+                } else {
+                    others.push(name);
+                }
+            }
+        }
+        crashes.sort();
+        let exe = std::env::current_exe().ok();
+        let mut unreproduced = 0;
+        for a in &crashes {
+            let Ok(bytes) = std::fs::read(a) else { continue };
+            let choices: Vec<u64> = bytes.iter().map(|b| *b as u64).collect();
+            let dir = out_root().join("replays").join(&self.property);
+            let _ = std::fs::create_dir_all(&dir);
+            let path = dir.join(format!("fuzz-{target}-{:016x}.json", fnv(&bytes)));
+            let js = Js::obj(vec![
+                ("property", Js::str(&self.property)),
+                ("campaign", Js::str(campaign)),
+                ("key", Js::str("from-libfuzzer-artefact")),
+                ("msg", Js::str(&a.file_name().map(|n| n.to_string_lossy().to_string()).unwrap_or_default())),
+                ("choices", Js::Arr(choices.iter().map(|c| Js::Num(c.to_string())).collect())),
+                ("detail", Js::obj(vec![("input", Js::Str(json::hex(&bytes)))])),
+            ]);
+            let _ = std::fs::write(&path, js.render());
+            let Some(exe) = &exe else { continue };
+            let child = std::process::Command::new(exe).arg(&self.property).arg("--replay").arg(&path).env("VERIF_CHILD", "1").env("VERIF_EVIDENCE_PATH", work.join("replay-evidence.json")).output();
+            match child {
+                Ok(o) => {
+                    let so = String::from_utf8_lossy(&o.stdout).to_string();
+                    if let Some(l) = so.lines().find(|l| l.starts_with("VIOLATION ")) {
+                        let detail = so.lines().skip_while(|x| !x.starts_with("VIOLATION ")).nth(1).unwrap_or("").trim().to_string();
+                        let key = detail.split_whitespace().find_map(|w| w.strip_prefix("key=")).unwrap_or("fuzz-artefact").to_string();
+                        if !self.violations.iter().any(|(k, _, _)| *k == key) {
+                            println!("{l}");
+                            println!("  {detail} (found by libFuzzer target {target})");
+                            self.violations.push((key, detail, path.clone()));
+                        }
+                    } else if o.status.code().is_none() {
+                        // the deterministic replay died as well: an abort is a violation of C05 only
+                        if self.property == "C05" {
+                            println!("VIOLATION property=C05 replay={}", path.display());
+                            println!("  key=C05/abort/{target} msg=the process is killed by a signal on this input (found by libFuzzer)");
+                            self.violations.push((format!("C05/abort/{target}"), "process killed".into(), path.clone()));
+                        } else {
+                            unreproduced += 1;
+                        }
+                    } else {
+                        unreproduced += 1;
+                        let _ = std::fs::remove_file(&path);
+                    }
+                }
+                Err(_) => unreproduced += 1,
+            }
+        }
+        // the final corpus, through the same oracle, counted as evidence
+        let mut inputs: Vec<Vec<u64>> = vec![];
+        if let Ok(rd) = std::fs::read_dir(&corpus) {
+            let mut files: Vec<_> = rd.filter_map(|e| e.ok()).map(|e| e.path()).collect();
+            files.sort();
+            for f in files.into_iter().take(20_000) {
+                if let Ok(b) = std::fs::read(&f) {
+                    inputs.push(b.iter().map(|x| *x as u64).collect());
+                }
+            }
+        }
+        let corpus_len = inputs.len();
+        if crashes.is_empty() {
+            self.explicit(campaign, &inputs, case);
+        }
+        if let Some(n) = executed {
+            // executions inside libFuzzer are evaluations of the same oracle
+            self.evaluations += n.max(0) as u64;
+        }
+        note(
+            self,
+            if crashes.is_empty() { "completed" } else { "stopped at a failing input" },
+            vec![
+                ("executed_units", executed.map(Js::int).unwrap_or(Js::Null)),
+                ("coverage_edges", cov.map(Js::int).unwrap_or(Js::Null)),
+                ("final_corpus", Js::int(corpus_len as i128)),
+                ("crash_artefacts", Js::int(crashes.len() as i128)),
+                ("artefacts_not_reproduced_by_cli", Js::int(unreproduced)),
+                ("other_artefacts_inconclusive", Js::Arr(others.iter().map(|o| Js::str(o)).collect())),
+            ],
+        );
+        let _ = std::fs::remove_dir_all(&work);
+    }
+
     /// Absorb the result of one case executed outside a proptest campaign.
     pub fn absorb(&mut self, campaign: &str, input: &[u64], log: CaseLog, r: CaseResult) {
         self.evaluations += 1 + log.sub_evals;
